@@ -16,9 +16,11 @@
 //   - Circles / distance sort: "true distance" depends on the earth model. bleve's Haversin
 //     uses a latitude dependent radius between the WGS84 polar and equatorial radii, so the
 //     oracle takes the exact central angle θ and the interval [θ·b, θ·a] (b = 6356752.3 m,
-//     a = 6378137 m; ±0.17 % around the mean sphere) widened by 0.25 m (encoding cell ≤ 1.1 cm
-//     on both coordinates + cancellation in 1-cos for metre-sized angles, measured ≤ 0.1 m;
-//     the run measures the excess of geo.Haversin over that interval and records it).
+//     a = 6378137 m; ±0.17 % around the mean sphere) widened by 0.3 m: the encoding moves a
+//     point by ≤ 1.1 cm, and Haversin forms h from 1-cos(Δ), whose absolute rounding error
+//     (≈ 1.7e-16) turns into 2R·√1.7e-16 ≈ 0.17 m of distance when the true distance is near
+//     zero or near half the circumference (the run measures the worst excess of geo.Haversin
+//     over the interval, 0.16 m, and records it; an excess above the band is a violation).
 //   - Polygons: the documentation does not say whether edges are straight in the lon/lat
 //     plane or great-circle arcs; a point is asserted only when both readings agree (it is
 //     outside every sliver between an edge's chord and its geodesic, and farther than the box
@@ -54,7 +56,7 @@ const (
 	latRes    = 180.0 / 4294967295.0 // one latitude cell, degrees
 	unit      = 1e-7                 // offset unit around edges, ≈ one cell
 	bandDeg   = 1.2e-6               // geoTolerance (1e-6°) + one longitude cell, rounded up
-	absBandM  = 0.25                 // metres, see package comment
+	absBandM  = 0.3                  // metres, see package comment
 	earthA    = 6378137.0            // WGS84 equatorial radius
 	earthB    = 6356752.3142         // WGS84 polar radius
 	earthMean = 6371008.7714
@@ -404,7 +406,7 @@ func geodesicLat(a, b pt, lon float64) float64 {
 
 // nearEdge: p lies within the band of the chord a-b, of the geodesic a-b, or between them.
 func nearEdge(p, a, b pt) bool {
-	const w = 2 * bandDeg
+	const w = bandDeg // the envelope over [lon-w, lon+w] widened by w in latitude contains the w-disc around p
 	if a.Lon == b.Lon {
 		lo, hi := math.Min(a.Lat, b.Lat), math.Max(a.Lat, b.Lat)
 		return math.Abs(p.Lon-a.Lon) <= w && p.Lat >= lo-w && p.Lat <= hi+w
@@ -464,13 +466,6 @@ func docState(d doc, st func(pt) tv) tv {
 		}
 	}
 	return best
-}
-
-func docKind(d doc) string {
-	if len(d.pts) > 1 {
-		return "multi-point-doc"
-	}
-	return "single-point-doc"
 }
 
 // run executes req and returns the hit ids in order; ok=false when a violation was recorded.
@@ -542,10 +537,11 @@ func (c *checker) compare(kind, feature, eng string, docs []doc, states []tv, st
 			if !got[d.id] {
 				rp := cloneRep(rep)
 				rp["engine"], rp["doc"], rp["doc_points"], rp["expected"] = eng, d.id, d.pts, "returned (clearly inside)"
-				class := fmt.Sprintf("%s:missing:%s:%s:%s", kind, eng, feature, docKind(d))
+				class := fmt.Sprintf("%s:missing:%s:%s", kind, eng, feature)
 				if len(d.pts) > 1 {
-					// a document some of whose points are not inside is one structural input class,
-					// whatever the engine and the shape's position
+					// a document with a point inside and another point not inside is one structural
+					// input class of its own, whatever the engine and the shape's position; a
+					// document all of whose points are inside is classed like a single point
 					var verdicts []string
 					mixed := false
 					for _, p := range d.pts {
@@ -556,8 +552,6 @@ func (c *checker) compare(kind, feature, eng string, docs []doc, states []tv, st
 					rp["point_verdicts"] = verdicts
 					if mixed {
 						class = fmt.Sprintf("%s:missing:%s:multi-point-doc:some-point-not-inside", kind, family(eng))
-					} else {
-						class += ":every-point-inside"
 					}
 				}
 				c.r.Violation(class,
@@ -567,7 +561,7 @@ func (c *checker) compare(kind, feature, eng string, docs []doc, states []tv, st
 			if got[d.id] {
 				rp := cloneRep(rep)
 				rp["engine"], rp["doc"], rp["doc_points"], rp["expected"] = eng, d.id, d.pts, "not returned (clearly outside)"
-				c.r.Violation(fmt.Sprintf("%s:extra:%s:%s:%s", kind, eng, feature, docKind(d)),
+				c.r.Violation(fmt.Sprintf("%s:extra:%s:%s", kind, eng, feature),
 					fmt.Sprintf("%s on %s %v: document %s with point(s) %v is clearly outside but was returned", kind, eng, rep["shape"], d.id, d.pts), rp)
 			}
 		}
@@ -713,7 +707,7 @@ func phaseMorton(r *mc.Run, pts []pt, origins []pt) {
 		worst = math.Max(worst, w)
 		mu.Unlock()
 	})
-	r.Note("haversin_max_excess_over_sphere_interval_m(absolute band used: 0.25)", worst)
+	r.Note("haversin_max_excess_over_sphere_interval_m(absolute band used: 0.3)", worst)
 }
 
 // ---------------------------------------------------------------------------------------------
@@ -827,17 +821,21 @@ func polygonsOver(r *mc.Run, lons, lats []float64, triLons, triLats []float64) [
 // milliseconds for a large box); it runs the same searcher code as scorch without a plugin, so
 // the quick tier gives it every third shape of the grid phase (thorough: all).
 func skipSlow(r *mc.Run, e engine, i int) bool {
-	return r.Quick() && e.name == "upsidedown" && i%3 != 0
+	return r.Quick() && e.name == "upsidedown" && (uint32(i)*2654435761>>8)%3 != 0 // a fixed third, not aligned with the loop nest
 }
 
 func phaseGrid(r *mc.Run, c *checker, engs []engine) (gridPts []pt) {
 	offs := mc.Pick(r,
 		[]float64{0, -1, 1, -20, 20, -1000, 1000},
 		[]float64{0, -1, 1, -5, 5, -11, 11, -13, 13, -20, 20, -1000, 1000, -300000, 300000})
-	boxLons := mc.Pick(r, []float64{-180, -135, -45, 0, 45, 135, 180}, []float64{-180, -179.99, -135, -90, -45, 0, 45, 90, 135, 179.99, 180})
-	boxLats := mc.Pick(r, []float64{-90, -45, 0, 45, 90}, []float64{-90, -89.99, -45, 0, 45, 89.99, 90})
-	polyLons := mc.Pick(r, []float64{-180, -45, 45, 180}, []float64{-180, -135, -45, 0, 45, 135, 180})
-	polyLats := mc.Pick(r, []float64{-90, -89.99, -45, 0, 45, 89.99}, []float64{-90, -89.99, -45, 0, 45, 89.99, 90})
+	// The lattice values are dyadic fractions of 360° / 180°, i.e. they coincide with Morton cell
+	// borders at every level, which makes "boundary cells" trivial; one value per axis (45.3,
+	// -44.6) is therefore moved off the cell grid, so that the cell containing an edge extends
+	// 0.01–0.02° beyond it and the ±2e-6° / ±1e-4° points around the edge lie in that cell.
+	boxLons := mc.Pick(r, []float64{-180, -135, -45, 0, 45.3, 179.99, 180}, []float64{-180, -179.99, -135, -90, -45, 0, 45.3, 90, 135, 179.99, 180})
+	boxLats := mc.Pick(r, []float64{-90, -44.6, 0, 89.99, 90}, []float64{-90, -89.99, -44.6, 0, 45, 89.99, 90})
+	polyLons := mc.Pick(r, []float64{-180, -45, 45.3, 180}, []float64{-180, -135, -45, 0, 45.3, 135, 180})
+	polyLats := mc.Pick(r, []float64{-90, -89.99, -44.6, 0, 45, 89.99}, []float64{-90, -89.99, -44.6, 0, 45, 89.99, 90})
 	triLons := mc.Pick(r, []float64{-180, 0, 45, 135}, []float64{-180, -45, 0, 45, 135})
 	triLats := mc.Pick(r, []float64{-89.99, 0, 45}, []float64{-89.99, -45, 0, 45})
 
@@ -886,8 +884,8 @@ func phaseGrid(r *mc.Run, c *checker, engs []engine) (gridPts []pt) {
 
 	boxes := boxesOver(boxLons, boxLats)
 	r.Note("boxes", len(boxes))
-	r.Sample(map[string]any{"kind": "box", "top_left": []float64{135, 90}, "bottom_right": []float64{-135, 45}, "feature": "dateline+pole",
-		"must_return": "g179.99_89.99, g-180_45.0001, …", "must_not_return": "g134.999998_45 (2e-6° west of the edge), g0_0", "either": "g135.0000005_45, g180_45 (on an edge)"})
+	r.Sample(map[string]any{"kind": "box", "top_left": []float64{179.99, 90}, "bottom_right": []float64{-135, -44.6}, "feature": "dateline+pole",
+		"must_return": "(180, 90), (-180, 0), (-135.000002, -44.599998), (179.990002, 89.99), …", "must_not_return": "(179.989998, 0) 2e-6° west of the west edge, (-134.9999, 0), (0, 0), …", "either": "(179.9900001, 0), (-135, 0), (-180, -44.6): within 1.2e-6° of an edge"})
 	size := len(docs) + 10
 	r.ParFor(len(boxes), 0, func(bi int) {
 		b := boxes[bi]
@@ -918,8 +916,8 @@ func phaseGrid(r *mc.Run, c *checker, engs []engine) (gridPts []pt) {
 
 	polys := polygonsOver(r, polyLons, polyLats, triLons, triLats)
 	r.Note("polygons", len(polys))
-	r.Sample(map[string]any{"kind": "polygon", "points": []pt{{-45, 0}, {45, 0}, {45, 45}, {-45, 45}}, "asserted": "points away from the slivers between each edge's chord and its great-circle arc (the meridian and equator edges have none)",
-		"must_return": "g0_0.000002, g44.999998_45…", "either": "g0_45.0001 (between the parallel and the great circle through the two upper corners)"})
+	r.Sample(map[string]any{"kind": "polygon", "points": []pt{{-45, 0}, {45.3, 0}, {45.3, 45}, {-45, 45}}, "asserted": "points away from the slivers between each edge's chord and its great-circle arc (meridian and equator edges have none)",
+		"must_return": "(0, 0.000002), (45.299998, 44.9999), …", "must_not_return": "(45.300002, 0.0001), (0, -0.000002), …", "either": "(0, 45.0001): between the 45° parallel and the great circle through the two upper corners"})
 	r.ParFor(len(polys), 0, func(pi int) {
 		pg := polys[pi]
 		feat := pg.feature()
@@ -977,7 +975,7 @@ func phaseCentres(r *mc.Run, c *checker, engs []engine) (edgePts []pt) {
 	var mu sync.Mutex
 	r.Sample(map[string]any{"kind": "circle", "centre": pt{179.99, 89.99}, "radius": "100km", "feature": "pole",
 		"must_return": "every lattice point with |lat| ≥ 89.99 on the northern side incl. (−135, 90); edge points 0.5 m inside on the equatorial-radius sphere",
-		"must_not_return": "edge points 0.5 m outside on the polar-radius sphere", "either": "points whose distance interval [θ·b, θ·a] ± 0.25 m contains the radius"})
+		"must_not_return": "edge points 0.5 m outside on the polar-radius sphere", "either": "points whose distance interval [θ·b, θ·a] ± 0.3 m contains the radius"})
 	r.Sample(map[string]any{"kind": "distance-sort", "origin": pt{-180, 0}, "rule": "a hit may not precede another when its distance interval lies entirely above the other's"})
 	r.ParFor(len(centres), 0, func(ci int) {
 		ctr := centres[ci]
@@ -1153,13 +1151,7 @@ func (c *checker) sortCheck(eng string, idx bleve.Index, origin pt, desc bool, b
 				a, b := byID[maxLo.id], byID[v.id]
 				rp := cloneRep(rep)
 				rp["first"], rp["first_points"], rp["second"], rp["second_points"] = a.id, a.pts, b.id, b.pts
-				where := "plain"
-				for _, p := range append(append([]pt{}, a.pts...), b.pts...) {
-					if math.Abs(p.Lat) == 90 {
-						where = "pole-point"
-					}
-				}
-				c.r.Violation(fmt.Sprintf("%s:order:%s:%s:%s/%s", kind, eng, where, docKind(a), docKind(b)),
+				c.r.Violation(fmt.Sprintf("%s:order:%s", kind, eng),
 					fmt.Sprintf("distance sort from (%v,%v) desc=%v on %s: %s %v (≥ %.3f m away) is ranked on the near side of %s %v (≤ %.3f m away)", origin.Lon, origin.Lat, desc, eng, a.id, a.pts, maxLo.lo, b.id, b.pts, v.hi), rp)
 			}
 		}
@@ -1174,13 +1166,14 @@ func (c *checker) sortCheck(eng string, idx bleve.Index, origin pt, desc bool, b
 // ---------------------------------------------------------------------------------------------
 
 func Run(r *mc.Run) {
-	r.Rule("E2: documents = 77-point lattice (lon ±180, ±179.99, ±135, ±90, ±45, 0 × lat ±90, ±89.99, ±45, 0) + points at 0, ±1, ±5, ±20, ±1000 ×1e-7° (≈ cells) around every box / polygon edge coordinate + points on 8–16 bearings at (radius ± margins) around every circle + multi-point documents + one document without a point; " +
-		"shapes = every bounding box (top-left, bottom-right) over the coarse lattice incl. date-line-crossing (left > right), pole-touching and zero-width/height ones; circles = every lattice centre × radii 1 m … 10 000 km (thorough: … 20 000 km); polygons = rectangles (4 corners and with intermediate vertices; both windings; ring closed and open) and all triangles over a sub-lattice; " +
-		"engines = scorch, scorch with spatialPlugin=s2, upsidedown; plus distance sort (asc, desc, and of a circle query's hits) from every lattice origin, Morton hash round trip of every point used, and geo.Haversin against the sphere interval. " +
-		"Oracle: exact spherical geometry, three-valued (must be returned / must not / either within the band: 1.2e-6° for boxes and polygons, [θ·b, θ·a] ± 0.25 m for distances; polygons additionally only where planar and great-circle edges agree). An outcome is (shape kind, structural feature, bucketed hit count) resp. (sort kind, hit bucket, inversion seen).")
+	r.Rule("E2: documents = 77-point lattice (lon ±180, ±179.99, ±135, ±90, ±45, 0 × lat ±90, ±89.99, ±45, 0) + the grid of points at 0, ±1, ±20, ±1000 ×1e-7° (1e-7° ≈ one cell; thorough adds ±5, ±11, ±13, ±300000) around every box / polygon edge coordinate + points on 8 (thorough 16) bearings at radius ± {0, 2 cm} (band) and radius ∓ {0.6 m, 50 m, …} (clear of the band on the largest / smallest sphere) around every circle + multi-point documents (2–3 points) + one document without a point; " +
+		"shapes = every bounding box (top-left, bottom-right) over a coarser lattice with one value per axis moved off the Morton cell grid (45.3, -44.6), incl. date-line-crossing (left > right), pole-touching and zero-width/height boxes; circles = every lattice centre × radii 1 m, 1 km, 100 km, 5 000 km, 10 000 km (thorough: 10 radii up to 20 000 km); polygons = rectangles (4 corners, and with intermediate vertices on the parallels) and all triangles over a sub-lattice, rotating through both windings and open / closed rings; " +
+		"engines = scorch, scorch with spatialPlugin=s2, upsidedown (quick tier: upsidedown gets a fixed third of the boxes / polygons and every fourth centre, and the plugin-less engines get the two largest radii from every eighth centre — same searcher code as plugin-less scorch, ~10^5 dictionary probes per such query; thorough: everything on every engine); " +
+		"plus distance sort (asc, desc, and of a circle query's hits) from every lattice origin, Morton hash round trip of every point used, and geo.Haversin from every lattice origin to every point against the sphere interval. " +
+		"Oracle: exact spherical geometry, three-valued (must be returned / must not / either within the band: 1.2e-6° for boxes and polygons, [θ·b, θ·a] ± 0.3 m for distances; polygons additionally only where planar and great-circle edges agree). An outcome is (shape kind, structural feature, bucketed hit count) resp. (sort kind, hit bucket, inversion seen).")
 	r.Assume(
 		"stated resolution: 32-bit Morton code per dimension (8.4e-8° lon, 4.2e-8° lat) plus bleve's declared geo tolerance of 1e-6° for box/polygon comparisons ⇒ band 1.2e-6°",
-		"'true distance' is any great-circle distance on a sphere whose radius lies between the WGS84 polar and equatorial radii (bleve's Haversin uses a latitude dependent radius in that range), ± 0.25 m",
+		"'true distance' is any great-circle distance on a sphere whose radius lies between the WGS84 polar and equatorial radii (bleve's Haversin uses a latitude dependent radius in that range), ± 0.3 m",
 		"polygon edges may be straight in the lon/lat plane or great-circle arcs (documentation silent): points between the two readings of an edge are not asserted; polygons crossing the date line, touching a pole or with an edge ≥ 180° wide are executed but not asserted",
 		"an edge lying on a pole (lat ±90) is the end of the coordinate domain: points up to the pole are inside; points within the band of a pole have no definite longitude",
 		"a multi-point document must match when any of its points is clearly inside and must not when all are clearly outside; in distance sort it may be placed by any of its points",
